@@ -11,10 +11,15 @@
    one-past-the-end index) and maps any byte index to the character containing it; on all-ASCII lines both are the
    identity (the implementation's fast path). Nesting/ordering of spans is the `Ordered` predicate of K2, preserved /
    used there.
-   NOT PROVED: the source scanners (next_frag, prev_frag, next_find, delimiters), pars(), the computed locations and the
-   by-location searches: decided by the tokenize-based oracle in py/props/C06.py (partial). *)
+   - (models/FindLoc.v: the search loop of find_contains_loc over the walk of the descendants, with its four cases -
+     passed over, starts behind, ends too early and skipped, entered; tied to the method by correspondence on encoded trees)
+     on every tree whose children lie inside their parent, in order and without overlap, the node returned is the root or
+     holds the span, and none of its children holds it: it is the lowest node that contains the span.
+   NOT PROVED: the source scanners (next_frag, prev_frag, next_find, delimiters), pars(), the computed locations,
+   find_in_loc / find_loc and find_contains_loc with allow_exact other than True: decided by the tokenize-based oracle and
+   the brute-force search oracle in py/props/C06.py (partial). *)
 From Coq Require Import List NArith Bool Arith.
-From PF Require Import kernel.PyBase kernel.Text models.Bistr proofs.BistrProofs.
+From PF Require Import kernel.PyBase kernel.Text models.Bistr proofs.BistrProofs models.FindLoc proofs.FindLocProofs.
 Import ListNotations.
 
 Theorem C06_c2b_is_bytes_before_char : forall l i, c2b l i = blen_nat (firstn i l).
@@ -41,6 +46,17 @@ Theorem C06_ascii_fast_path : forall l, is_ascii l = true ->
   (forall i, i <= length l -> c2b l i = i) /\ (forall j, j <= length l -> b2c l j = j).
 Proof. exact ascii_identity. Qed.
 Print Assumptions C06_ascii_fast_path.
+
+Theorem C06_find_contains_loc_returns_the_lowest_containing_node : forall a b root, wf root = true ->
+  let r := descend (size root) a b root in
+  (r = root \/ holds a b r) /\ forall c, In c (kids r) -> ~ holds a b c.
+Proof. exact find_contains_correct. Qed.
+Print Assumptions C06_find_contains_loc_returns_the_lowest_containing_node.
+
+Theorem C06_find_scan_over_descendants_is_the_scan_over_children : forall a b cs lo fuel, ordered lo cs = true -> forallb wf cs = true -> sizes cs < fuel ->
+  scan fuel a b cs = lscan a b cs.
+Proof. exact scan_is_lscan. Qed.
+Print Assumptions C06_find_scan_over_descendants_is_the_scan_over_children.
 
 (* "aé€😀b": widths 1,2,3,4,1 *)
 Example C06_nonvacuous :
